@@ -33,7 +33,7 @@ class newton:
 # ---- bookkeeping of duplicated external nodes (C01 / C03: `ext + edge.nodes` may repeat a node) ------------
 @contract("fggs.sum_product.rename_duplicate_nodes")
 class rename_duplicate_nodes:
-    sig = {"fgg": "opaque", "ext": "seq[Node]", "tensors": "opaque", "indexing": "opaque",
+    sig = {"fgg": "opaque", "ext": "seq[Node]", "tensors": "opaque", "indexing": "list[seq[Node]]",
            "connected": "set[Node]", "semiring": "opaque"}
     properties = ["C01", "C03"]
     locals = {"ext": "list[Node]"}
@@ -41,8 +41,11 @@ class rename_duplicate_nodes:
     # the nodes passed in exist (their implicit ids are ids of live objects)
     requires = lambda ext: forall(lambda j: implies(0 <= j and j < len(ext) and is_int_id(ext[j].id),
                                                     alive(int_of(ext[j].id))), "int")
-    loops = {0: lambda ext, ext_orig, connected, _i0: (
-        len(ext) == _i0
+    loops = {0: lambda ext, ext_orig, connected, indexing, _i0: (
+        # one identity factor and one index pair per renamed node (the call counters start at zero in every use)
+        count("append") == count("eye") and len(indexing) == len(old(indexing)) + count("eye")
+        and forall(lambda j: implies(0 <= j and j < len(old(indexing)), indexing[j] == old(indexing)[j]), "int")
+        and len(ext) == _i0
         and forall(lambda j, m: implies(0 <= j and j < m and m < _i0, ext[j] != ext[m]), "int,int")
         and forall(lambda j: implies(0 <= j and j < _i0,
                                      (ext[j] == ext_orig[j]) == (not exists(lambda m: 0 <= m and m < j and ext_orig[m] == ext_orig[j], "int"))
@@ -65,6 +68,8 @@ class rename_duplicate_nodes:
             lambda j: implies(0 <= j and j < len(ext) and result[0][j] != ext[j],
                               result[0][j] in connected and ext[j] in connected), "int"),
         "connected_only_grows": lambda connected: forall(lambda v: implies(v in old(connected), v in connected), "Node"),
+        "one_factor_per_index_pair": lambda indexing: (count("append") == count("eye")
+                                                       and len(indexing) == len(old(indexing)) + count("eye")),
     }
 
 
@@ -136,3 +141,35 @@ class sum_products:
                               comp_opts["method"] == opts["method"])
                   and forall(lambda s: implies(s != "method", (s in comp_opts) == (s in opts)
                                                and implies(s in opts, comp_opts[s] == opts[s])), "str"))}
+
+
+# ---- sum_product_edges: what is handed to einsum (C01, C03) ---------------------------------------------------------
+# Tensors, weights and the grammar are opaque; the obligations are about the index bookkeeping at the einsum call:
+# one tensor per index list; the index lists of the edges come in edge order after the identity factors of duplicated
+# external nodes; every attachment node counts as connected; the output nodes are pairwise different nodes of the
+# (renamed) externals that are connected; every edge's weight is looked up, and None is returned without calling einsum
+# exactly when some lookup fails.
+@contract("fggs.sum_product.sum_product_edges")
+class sum_product_edges:
+    sig = {"fgg": "opaque", "nodes": "seq[Node]", "edges": "seq[Edge]", "ext": "seq[Node]", "inputses": "opaque", "semiring": "opaque"}
+    properties = ["C01", "C03"]
+    locals = {"connected": "set[Node]", "indexing": "list[seq[Node]]", "tensors": "opaque", "ext": "list[Node]"}
+    opaque_calls = ["eye", "get_weight", "einsum", "multiply_in_disconnected_internals", "view", "expand", "shape", "print"]
+    requires = lambda ext: forall(lambda j: implies(0 <= j and j < len(ext) and is_int_id(ext[j].id), alive(int_of(ext[j].id))), "int")
+    loops = {0: lambda edges, indexing, connected, _i0: (
+        count("get_weight") == _i0 and count("einsum") == 0
+        and count("append") == len(indexing)
+        and len(indexing) >= _i0
+        and forall(lambda j: implies(0 <= j and j < _i0, indexing[len(indexing) - _i0 + j] == edges[j].nodes), "int")
+        and forall(lambda j, m: implies(0 <= j and j < _i0 and 0 <= m and m < len(edges[j].nodes),
+                                        edges[j].nodes[m] in connected), "int,int"))}
+    checks = {"out = einsum(tensors, indexing, outputs, semiring)": lambda edges, ext, indexing, connected, outputs: (
+        count("append") == len(indexing) and len(indexing) >= len(edges) and count("get_weight") == len(edges)
+        and forall(lambda j: implies(0 <= j and j < len(edges), indexing[len(indexing) - len(edges) + j] == edges[j].nodes), "int")
+        and forall(lambda j, m: implies(0 <= j and j < len(edges) and 0 <= m and m < len(edges[j].nodes),
+                                        edges[j].nodes[m] in connected), "int,int")
+        and forall(lambda a: implies(0 <= a and a < len(outputs), outputs[a] in ext and outputs[a] in connected), "int")
+        and forall(lambda a, b: implies(0 <= a and a < b and b < len(outputs), outputs[a] != outputs[b]), "int,int"))}
+    may_raise = ["AssertionError"]          # the dtype assertions are about tensors: not modelled
+    ensures = {"einsum_once_or_none": lambda result: (
+        count("einsum") <= 1 and implies(count("einsum") == 0, result is None))}
